@@ -315,7 +315,7 @@ def check_route_totality(idx: Index, rep: Report):
     check_sympy_expectation(idx, rep)
     from . import C01 as _C01
     _C01.check_cirq_initial_state(idx, rep)          # expectation values from shots start from the user's initial state on every cirq path
-    _C01.check_no_silent_drop(idx, rep, tier)           # a MEASURE (or any gate) dropped by the translator changes the state every expectation value is taken in
+    _C01.check_no_silent_drop(idx, rep, "quick")        # a MEASURE (or any gate) dropped by the translator changes the state every expectation value is taken in
     from .C10 import check_cirq_record_assembly
     check_cirq_record_assembly(idx, rep)             # shot strings of the all-shots cirq path: character p = record of position p
 
